@@ -393,15 +393,36 @@ def _construct(tname, t, form):
             other = bnp.as_encoded_array(col.tolist(), ACTGEncoding) if len(t) else col
             kw = {nm: getattr(t, nm) for nm in fields}
             kw[repc] = other
-            return _project(type(t)(**kw))[0]
+            res1 = _project(type(t)(**kw))[0]
+            if len(t) >= 2:
+                # the column handed over as a list of single rows taken in turn from two differently encoded columns: refused, or the same rows
+                a_ = bnp.as_encoded_array(col.tolist(), bnp.DNAEncoding)
+                mixed = [a_[i] if i % 2 == 0 else other[i] for i in range(len(t))]
+                try:
+                    res2 = _project(type(t)(**dict(kw, **{repc: mixed})))[0]
+                except BaseException as e:      # noqa
+                    if isinstance(e, (KeyboardInterrupt, SystemExit, MemoryError)):
+                        raise
+                    res2 = None
+                if res2 is not None and res2 != res1:
+                    return res2
+            return res1
         if form == "bad":
-            kw = {nm: getattr(t, nm) for nm in fields}
-            kw[sortc] = ["x"] * max(len(t), 1)
             if len(t) == 0:
                 return "__not_applicable__"
-            new = type(t)(**kw)
-            _project(new)
-            return ["accepted", str(getattr(new, sortc))[:60]]
+            # text in a numeric column, as a list of str, as a NumPy array of byte strings and as a list of bytes: every form is refused
+            for bad_vals in (["x"] * len(t), np.array([b"x"] * len(t)), [b"x"] * len(t)):
+                kw = {nm: getattr(t, nm) for nm in fields}
+                kw[sortc] = bad_vals
+                try:
+                    new = type(t)(**kw)
+                    _project(new)
+                except BaseException as e:      # noqa
+                    if isinstance(e, (KeyboardInterrupt, SystemExit, MemoryError)):
+                        raise
+                    continue
+                return ["accepted", repr(bad_vals)[:40], str(getattr(new, sortc))[:60]]
+            return "__raised__"
     except BaseException as e:      # noqa
         if isinstance(e, (KeyboardInterrupt, SystemExit, MemoryError)):
             raise
